@@ -461,11 +461,16 @@ pub fn strategy() -> BoxedStrategy<Case> {
 
 /// downloads whose window is larger than the default UDP socket buffer (212992 bytes)
 pub fn big_strategy() -> BoxedStrategy<Case> {
-    (any::<bool>(), prop::sample::select(vec![(1024u64, 256u64), (1428, 200), (512, 500), (8192, 40), (65464, 5), (4096, 100), (1024, 1000), (512, 65535)]), 0usize..3, any::<u64>())
+    (any::<bool>(), prop::sample::select(vec![(1024u64, 256u64), (1428, 200), (512, 500), (8192, 40), (65464, 5), (4096, 100), (1024, 1000), (512, 65535), (8, 2000), (8, 65535), (16, 1025), (8, 1100), (32, 4096)]), 0usize..3, any::<u64>())
         .prop_map(|(single, (blk, ws), extra, seed)| {
             // more full blocks than fit into 212992 bytes, at most ~1.5 MB per burst
             let blocks_in_buf = (212_992 / blk) as usize;
-            let blocks = (blocks_in_buf + 3 + extra * 7).min(ws as usize + 2 + extra);
+            let blocks = if blk <= 32 {
+                // tiny blocks: more than 1024 and more than 2048 blocks in one window
+                (1030 + extra * 1100).min(ws as usize + 2 + extra)
+            } else {
+                (blocks_in_buf + 3 + extra * 7).min(ws as usize + 2 + extra)
+            };
             Case {
                 single,
                 write: false,
